@@ -36,7 +36,8 @@ F_STAR = 'C08-star-import-registration'
 F_FUTURE = 'C08-future-import-not-first'
 F_LINE = 'C08-inserted-nodes-wrong-line'
 F_BAREREL = 'C08-bare-relative-import-typeerror'
-ALL_FINDINGS = [F_GENRET, F_GENTHROW, F_STAR, F_FUTURE, F_LINE, F_BAREREL]
+F_SHADOW = 'C08-profile-name-captured-in-class-body'
+ALL_FINDINGS = [F_GENRET, F_GENTHROW, F_STAR, F_FUTURE, F_LINE, F_BAREREL, F_SHADOW]
 
 
 # ---------------------------------------------------------------------------------------
@@ -185,6 +186,11 @@ def py_behaviour_spec(case, r):
             da, db = by_tag(a['out']), by_tag(b['out'])
             pre_ok = all(db[t] == da.get(t, [])[:len(db[t])] for t in db if t not in known_bad)
             fid = F_GENTHROW if pre_ok else None
+        elif full and 'shadow_profile' in tags and a['exc'] != 'TypeError' and b['exc'] == 'TypeError' \
+                and "'str' object is not callable" in err and b['out'] == a['out'][:len(b['out'])]:
+            # a class body defines a method named `profile` before another method: the added
+            # `@profile` of the later method resolves to that method
+            fid = F_SHADOW
         elif full and (a['rc'] == 0) == (b['rc'] == 0) and a['exc'] == b['exc']:
             da, db = by_tag(a['out']), by_tag(b['out'])
             diff = {t for t in set(da) | set(db) if da.get(t) != db.get(t)}
@@ -237,12 +243,16 @@ def gen_cases(tier, rnd, root):
     beh += [G8.gen_behaviour_case(rnd, module_mode=True) for _ in range(n_behmod)]
     tree = [G9.gen_tree_case(rnd, module_mode=False) for _ in range(n_tree)]
     tree += [G9.gen_tree_case(rnd, module_mode=True) for _ in range(n_mod)]
+    lays = [G9.gen_layout_case(rnd, e2e=False) for _ in range(n_tree // 4)]
     for c in load_canonical():
         (beh if c['kind'] == 'behaviour' else tree).append(c)
     for b in beh:
         tree += behaviour_as_tree_cases(b)
+    tree += lays
     for k, c in enumerate(tree):
         c['base'] = os.path.join(root, 't%d' % k)
+        if '_lay' in c:
+            G9.finish_layout_case(rnd, c, c['base'])
     for k, c in enumerate(beh):
         c['base'] = os.path.join(root, 'b%d' % k)
     return tree, beh
@@ -421,7 +431,9 @@ def run(tier, seed):
             'ast.fix_missing_locations (Ast/Transform.v)',
             'the converter Python AST -> AstLite (harness/drivers/c09_astconv.py)',
             'compile()/exec with the original filename (autoprofile.run) is exercised by the behavioural runs only'])
-    res.assumptions = ['the program does not rebind the name `profile` (the added decorator and registration calls resolve it in builtins)',
+    res.assumptions = ['the program does not rebind the name `profile` in a scope where a function is defined or an import is registered '
+                       '(the added decorator and registration calls resolve it by name; the class-body case is the known finding '
+                       'C08-profile-name-captured-in-class-body)',
                        'behaviour is compared on stdout, exit status (zero / non-zero) and the type of the uncaught exception; '
                        'stderr text, object identities and recursion depth are outside the comparison',
                        'programs do not call sys.exit (exit codes under kernprof are property C07)']
